@@ -173,13 +173,13 @@ def anyEnabled (c : MonCfg) (s : FSt) : Bool :=
 
 def straceLine (v desc progs : String) (raw : String) : String :=
   match parseVersion v, parseNumDesc desc, (progs.splitOn "|").mapM atProgram with
-  | some ver, some (.gen len _ ill first), some programs =>
+  | some ver, some (.gen len _ ill first hashed), some programs =>
     if ill || first.isSome then "skip" else
     match raw.splitOn " ## " with
     | [evs, _, _, status] =>
       if ver == Version.v3 && len == 0 then "skip"    -- NewNumber returns the zero Number: no memoizer
       else
-      let src : Nat → Int := fun p => if len < 0 || (p : Int) < len then (genDigit p : Int) else -1
+      let src : Nat → Int := fun p => if len < 0 || (p : Int) < len then (srcDigit hashed p : Int) else -1
       let c := monCfgOf ver src
       match (if evs == "-" then some [] else (evs.splitOn ",").mapM parseSEv) with
       | none => "DIFF unparsable event list"
